@@ -9,7 +9,8 @@ R2  every activation path applies the rule: goals (C03.R3), inherited rules firs
 import re
 
 from ..expr import LocalEnv, canon, show
-from ..facts import AnalysisBroken, UNSUPPORTED, init_h, short, src, walk
+from ..facts import walk_nolambda, AnalysisBroken, UNSUPPORTED, init_h, short, src, walk
+from ..tables import enum_paths
 from .. import cfg
 
 TOK = re.compile(r'\s*(>=|<=|==|[A-Za-z_][A-Za-z_0-9]*|\d+\.\d+|\d+|[-+*/(){};,:])')
@@ -210,29 +211,51 @@ def r2(ctx, fs):
         f = fs.fn(cls + '::new_atom')
         env = LocalEnv(f)
         env.param_roles(['f'])
-        g = cfg.Graph(f)
-        sets = g.events(lambda t: t.get('callee_name') == 'ratio::smart_type::set_ni')
-        rules = g.events(lambda t: t.get('callee_name') == 'ratio::predicate::apply_rule')
-        rest = g.events(lambda t: t.get('callee_name') == 'ratio::smart_type::restore_ni')
+        # decided on the paths of new_atom (helpers unknown to the inventory are inlined): on every path taken for a fact the sequence is
+        # set_ni(lit(sigma of the atom)); exactly one <temporal predicate>.apply_rule(atom); restore_ni() - and on no other path
+        SET, RULE, REST = 'ratio::smart_type::set_ni', 'ratio::predicate::apply_rule', 'ratio::smart_type::restore_ni'
         used = set()
-        for n in rules:
-            s = show(canon(g.tree(n), env)[2])
-            for p in preds:
-                if p in s:
-                    used.add(p)
-        ok_br = len(sets) == 1 and len(rest) == 1 and bool(rules) and g.always_before(sets, rules) and all(g.must_pass(rest, start=r) for r in rules)
-        # within the fact arm, every path from set_ni to restore_ni applies exactly one rule
-        cnt = g.count(rules, start=sorted(sets)[0], ends=rest) if sets and rest else None
-        arg = [canon(g.tree(n), env) for n in sets]
-        ok_arg = bool(arg) and isinstance(arg[0][3], tuple) and arg[0][3][0] == 'lit' and 'sigma' in show(arg[0][3]) and 'get_atom' in show(arg[0][3])
-        guard = None
-        for n in sets:
-            anc = [a for a in f.ancestors(g.tree(n)) if a.get('k') == 'IfStmt']
-            guard = [show(canon(a['slots']['cond'], env, subst=False)) for a in anc]
-        ctx.instance(rid, [f.id, 'fact-rule'], {'smart_type': cls, 'rule_predicates': sorted(used), 'rules_between_set_and_restore (min,max)': cnt, 'guards': guard})
-        if not (ok_br and ok_arg and used == preds and cnt == (1, 1) and guard == ['(. f is_fact)']):
+        ok = True
+        detail = []
+        n_fact_paths = 0
+        for p in enum_paths(f.body):
+            if p.end == 'throw':
+                continue
+            fact = None
+            other = []
+            for kind, node, pol in p.conds:
+                if kind != 'if':
+                    continue
+                c = canon(node, env, subst=False)
+                if c == ('.', 'f', 'is_fact'):
+                    fact = pol
+            seq = []
+            for st in p.stmts:
+                for m in walk_nolambda(st):
+                    if m.get('callee_name') in (SET, RULE, REST) and not m.get('as'):
+                        seq.append((m.get('callee_name'), m))
+            names = [x[0] for x in seq]
+            if fact:
+                n_fact_paths += 1
+                if names != [SET, RULE, REST]:
+                    ok = False
+                    detail.append('fact path: %s' % [x.rsplit('::', 1)[-1] for x in names])
+                else:
+                    a0 = canon(seq[0][1], env)
+                    if not (isinstance(a0[3], tuple) and a0[3][0] == 'lit' and 'sigma' in show(a0[3]) and 'get_atom' in show(a0[3])):
+                        ok = False
+                        detail.append('set_ni(%s)' % show(a0[3]))
+                    rs = show(canon(seq[1][1], env)[2])
+                    for pr in preds:
+                        if pr in rs:
+                            used.add(pr)
+            elif names:
+                ok = False
+                detail.append('non-fact path: %s' % [x.rsplit('::', 1)[-1] for x in names])
+        ctx.instance(rid, [f.id, 'fact-rule'], {'smart_type': cls, 'rule_predicates': sorted(used), 'fact_paths': n_fact_paths, 'problems': detail[:4]})
+        if not (ok and n_fact_paths and used == preds):
             ctx.finding(rid, f.id, 'fact-rule', '%s: a fact on this type must get the temporal rule of %s applied exactly once between set_ni(lit(sigma)) and restore_ni(), under no other condition than is_fact '
-                        '(found predicates %s, count %s, guards %s)' % (f.name, sorted(preds), sorted(used), cnt, guard), loc=f.loc)
+                        '(found predicates %s, %s)' % (f.name, sorted(preds), sorted(used), '; '.join(detail[:4]) or 'no fact path'), loc=f.loc)
     # goals get the temporal rule through predicate::apply_rule, which must reach the inherited rules unconditionally
     from .C03 import apply_rule_shape
     apply_rule_shape(ctx, rid, fs)
